@@ -36,7 +36,7 @@ def pick_type(rng, project, allow_prim=True):
     return rng.choice(project) if project else rng.choice(EXTERNAL)
 
 
-def gen_project(rng):
+def gen_project(rng, wildcard=0.0, missing_import=0.0):
     n = rng.choice([1, 2, 3, 4, 5])
     decl = []
     used = set()
@@ -60,8 +60,19 @@ def gen_project(rng):
                 return None      # a different type of that simple name is already in scope: do not use
             if n_.lower() == nm.lower() and p != pk:
                 return None      # a type with the class's own simple name from another package: not conventional
+            if p != pk and n_ not in scope and missing_import and rng.random() < missing_import and \
+                    sum(1 for d in decl if d[1] == n_ and d[0] != pk) >= 2:
+                # C07 only: legacy code in a broken state - the import of a name that two other packages declare is missing, so
+                # the tool can only guess; the guess must still not depend on order or repetition
+                scope[n_] = p
+                return n_
             if p != pk and n_ not in scope:
-                imports.append(p + "." + n_)
+                if wildcard and p in PKGS and rng.random() < wildcard and (pk, n_) not in decl:       # (a class of the own package shadows on-demand imports)
+                    # an on-demand import of a project package: the type is visible, but only through `import p.*;`
+                    if p + ".*" not in imports:
+                        imports.append(p + ".*")
+                else:
+                    imports.append(p + "." + n_)
             scope[n_] = p
             return n_
         others = [d for d in decl if d != (pk, nm)]
@@ -249,8 +260,16 @@ def gen_stmt(rng, env, use, others, cls, depth):
             if rng.random() < 0.4:
                 return ("expr", ("assign", v, gen_expr_call(rng, env, use, others, cls, 1)))     # v = a.b();
             return ("expr", ("assign", v, ("new", env[v], [])))      # type-correct: the declared type itself
-    if r < 0.95:
+    if r < 0.93:
         return ("expr", ("call", ("name", "list"), "forEach", [("lambda", ["e"], gen_expr_call(rng, env, use, others, cls, 1))]))
+    if r < 0.95:
+        # a lambda with explicitly typed parameters: calls on them resolve against the declared type like calls on any parameter
+        t = use(pick_type(rng, others, allow_prim=False))
+        if t:
+            v = "lp%d" % rng.randrange(1000)
+            if v not in env:
+                ps = [(t, v)] + ([("String", "k%d" % rng.randrange(100))] if rng.random() < 0.3 else [])
+                return ("expr", ("call", ("name", "list"), "forEach", [("lambda", ps, ("call", ("name", v), rng.choice(METHODS), [], {"recvVar": v, "recvType": t}))]))
     t = use(pick_type(rng, others, allow_prim=False))
     if t:
         return ("expr", ("call", ("name", "list"), "map", [("mref", ("name", t), rng.choice(METHODS))]))
@@ -273,8 +292,9 @@ def render_project(rng, units, layout=None):
     return files, built
 
 
-def project_case(rng):
-    units = gen_project(rng)
+def project_case(rng, wildcard=None, missing_import=0.0):
+    # a fifth of the trees see some project types through on-demand imports (`import com.shop.order.*;`)
+    units = gen_project(rng, rng.choice([0.0, 0.0, 0.0, 0.0, 0.5]) if wildcard is None else wildcard, missing_import)
     files, built = render_project(rng, units)
     extra = {}
     if rng.random() < 0.3:
@@ -318,7 +338,7 @@ def view(o):
 
 def multi_case(rng):
     """C07: one tree, several runs in one process: every order / subset / repetition shape, identifier set fixed"""
-    c = project_case(rng)
+    c = project_case(rng, missing_import=rng.choice([0.0, 0.0, 0.0, 0.6]))
     paths = [u["path"] for u in c["units"]]
     runs = [list(paths)]
     perm = list(paths)
